@@ -51,6 +51,7 @@ def run(tier):
     for rel2, q2, c2, sites, tag in XM.ITEMS:
         if tag == 'C18':
             reps.append(deductive.verify_function(rel2, q2, c2, hooks=XM.hooks(sites), prefix='%s::%s[update equations]' % (rel2, q2)))
+    reps.append(XM.feasibility_stop_report())
     return reps
 
 
